@@ -13,7 +13,7 @@ import (
 
 func (c *Ctx) newUnit(fn *ssa.Function, con *Contract) *Unit {
 	u := &Unit{ctx: c, em: newEmitter(), fn: fn, con: con, heapTy: map[string]types.Type{}, obSeen: map[string]int{},
-		depthMax: 4, extUsed: map[string]bool{}, staticCells: map[*cellKey]Val{}}
+		depthMax: 4, extUsed: map[string]bool{}, staticCells: map[*cellKey]Val{}, frameSkip: map[string]bool{}}
 	if con != nil {
 		u.arith = con.Arith
 		u.abstract = con.Abstract
@@ -72,7 +72,7 @@ func (c *Ctx) buildVC(fn *ssa.Function, con *Contract) *Unit {
 	}
 	if con != nil {
 		u.onReturn = func(f *Frame, rst *State, vals []Val, k int, pos token.Pos) {
-			env := &SpecEnv{u: u, st: rst, old: entry, vars: bindPost(vals), oldVars: params, pkg: con.Pkg, fr: pf}
+			env := &SpecEnv{u: u, st: rst, old: entry, vars: bindPost(vals), oldVars: params, pkg: con.Pkg, fr: pf, atExit: true}
 			for _, e := range con.Ensures {
 				t := env.boolExpr(e.Expr)
 				u.oblige(f, rst, "ensures", fmt.Sprintf("%s/return%d", e.label(), k+1), t, pos)
@@ -102,7 +102,7 @@ func (u *Unit) frameObligations(f *Frame, out, entry *State, con *Contract, para
 		allowed := false
 		for _, a := range con.Assigns {
 			for _, l := range env.lvalue(a) {
-				if l.loc.Kind == LGlobal && l.loc.Global == g {
+				if l.loc != nil && l.loc.Kind == LGlobal && l.loc.Global == g {
 					allowed = true
 				}
 			}
@@ -117,7 +117,7 @@ func (u *Unit) frameObligations(f *Frame, out, entry *State, con *Contract, para
 // state only at the locations named by the assigns clause (for pre-existing objects).
 func (u *Unit) frameGoal(hn string, now, entry *State, con *Contract) string {
 	ty := u.heapTy[hn]
-	if ty == nil {
+	if ty == nil || u.frameSkip[hn] {
 		return ""
 	}
 	h1, ok := now.heaps[hn]
@@ -133,11 +133,21 @@ func (u *Unit) frameGoal(hn string, now, entry *State, con *Contract) string {
 	if h1 == h0 {
 		return ""
 	}
-	if strings.HasPrefix(hn, "M_") || strings.HasPrefix(hn, "VM_") {
-		return fmt.Sprintf("(forall ((r Int)) (=> (and (> r 0) (<= r alloc_init)) (= (select %s r) (select %s r))))", h1, h0)
-	}
 	params := u.topParams
 	env := &SpecEnv{u: u, st: entry, old: entry, vars: params, oldVars: params, pkg: con.Pkg, fr: &Frame{u: u, fn: u.fn, pure: true}}
+	if strings.HasPrefix(hn, "M_") || strings.HasPrefix(hn, "VM_") {
+		var conds []string
+		for _, a := range con.Assigns {
+			for _, l := range env.lvalue(a) {
+				if l.mapTy != nil {
+					if dn, vn := u.mapHeaps(l.mapTy); dn == hn || vn == hn {
+						conds = append(conds, fmt.Sprintf("(not (= r %s))", l.mapRef))
+					}
+				}
+			}
+		}
+		return fmt.Sprintf("(forall ((r Int)) (=> (and (> r 0) (<= r alloc_init) %s) (= (select %s r) (select %s r))))", strings.Join(conds, " "), h1, h0)
+	}
 	type exc struct {
 		ref   string
 		loc   *Loc
@@ -147,6 +157,9 @@ func (u *Unit) frameGoal(hn string, now, entry *State, con *Contract) string {
 	for _, a := range con.Assigns {
 		for _, l := range env.lvalue(a) {
 			var n string
+			if l.loc == nil {
+				continue
+			}
 			switch l.loc.Kind {
 			case LHeap:
 				n = u.em.heapName(l.loc.RootTy)
@@ -158,6 +171,11 @@ func (u *Unit) frameGoal(hn string, now, entry *State, con *Contract) string {
 			if n == hn {
 				excs = append(excs, exc{ref: l.loc.Ref, loc: l.loc, whole: l.whole})
 			}
+		}
+	}
+	for _, l := range u.frameExtra {
+		if l.loc.Kind == LHeap && u.em.heapName(l.loc.RootTy) == hn {
+			excs = append(excs, exc{ref: l.loc.Ref, loc: l.loc})
 		}
 	}
 	if strings.HasPrefix(hn, "E_") {
